@@ -35,6 +35,7 @@ CFGS = {
     "libm":          dict(features=["libm"], profile="dev"),
     "assert":        dict(features=["glam-assert"], profile="dev"),
     "assert-scalar": dict(features=["glam-assert", "scalar-math"], profile="dev"),
+    "assert-rel":    dict(features=["glam-assert"], profile="release"),
     "feat":          dict(features=["feat"], profile="dev"),
     "feat-scalar":   dict(features=["feat", "scalar-math"], profile="dev"),
     "feat-coresimd": dict(features=["feat", "core-simd"], profile="dev", toolchain="nightly"),
